@@ -470,7 +470,15 @@ class Driver:
                 finally:
                     with sch._cond:
                         sch.in_memory_jobs.pop(row_id, None)
-                        sch._heap = [h for h in sch._heap if h[2].id != row_id]
+                        def _hid(h):
+                            # a job object expired by an acquire_lock() in the transaction that scheduled
+                            # it is detached after commit: any attribute access raises; such entries are
+                            # kept (the real dispatcher fails on them and the store poll runs the job)
+                            try:
+                                return h[2].id
+                            except Exception:
+                                return None
+                        sch._heap = [h for h in sch._heap if _hid(h) != row_id]
             return 'ran'
         return self._call('job', body)[0]
 
